@@ -102,7 +102,7 @@ def judge_plan(res, sizes, W, demands, opt):
 LIMITS = [{"max_iter": 0}, {"max_iter": 1}, {"max_iter": 2}, {"stop": 0}, {"stop": 1}, {"max_iter": 1, "max_nodes": 1}, {"max_nodes": 2}]
 
 
-def run_instance(r, sizes, W, demands, solvers, limits=False):
+def run_instance(r, sizes, W, demands, solvers, limits=False, base=None):
     from solvor.bp import solve_bp
     from solvor.cg import solve_cg
 
@@ -110,7 +110,7 @@ def run_instance(r, sizes, W, demands, solvers, limits=False):
     single = sum(-(-d // (W // s)) for d, s in zip(demands, sizes))
     nontrivial = opt < single
     wit00 = {"roll_width": W, "piece_sizes": list(sizes), "demands": list(demands)}
-    runs = [(name, {}) for name in solvers]
+    runs = [(name, dict(base or {})) for name in solvers]
     if limits:
         runs += [(name, lim) for name in solvers for lim in LIMITS if not ("max_nodes" in lim and name == "solve_cg")]
     for name, lim in runs:
@@ -164,12 +164,16 @@ def _cs_block(params, lo, hi):
 
 def _cs_sparse_chunk(params, lo, hi):
     """three piece sizes in 1..W, demands from {1,3,5}^3: index = size_code * 27 + demand_code (+ offset)"""
-    W, off = params
+    W, off = params[:2]
+    fns = params[2] if len(params) > 2 else ("solve_cg",)
+    alpha = params[3] if len(params) > 3 else (1, 3, 5)
     r = new_result()
     for idx in range(lo + off, hi + off):
-        demands = [(1, 3, 5)[d] for d in digits(idx % 27, 3, 3)]
+        demands = [alpha[d] for d in digits(idx % 27, 3, 3)]
         sizes = [1 + d for d in digits(idx // 27, W, 3)]
-        run_instance(r, sizes, W, demands, ("solve_cg",))
+        # solve_bp re-prices up to max_iter times per node; the default of 1000 makes single instances take half a minute
+        # (slow, not wrong), so this family bounds the rounds per node - OPTIMAL claims are judged as always
+        run_instance(r, sizes, W, demands, fns, base={"max_iter": 60} if "solve_bp" in fns else None)
         if len(r["violations"]) >= 40 or r["counters"]["hangs"] >= 2 or too_many_hangs():
             r["capped"] = True
             break
@@ -265,6 +269,15 @@ def jobs(tier, seed):
                 js.append(Job(f"bp_W5_m3_block{b}of8", hi - lo, _cs_block, (W, m, ("solve_bp",), 4, lo), chunk=max(1, (hi - lo) // 256), describe="solve_bp: rotating eighth (VERIF_SEED) of the W=5, three-size instances (0.2 s per instance)"))
                 continue
             js.append(Job(f"bp_W{W}_m{m}", size, _cs_chunk, (W, m, ("solve_bp",)), chunk=max(1, size // 256), describe="solve_bp: all size tuples in 1..W, demands 0..3"))
+    # solve_bp with deeper trees: three sizes on rolls of width 9, demands from {2,3,5} (a node that bounds an initial
+    # pattern, pricing proposing it again, both copies used by a later node)
+    size9 = 9**3 * 27
+    if tier == "thorough":
+        js.append(Job("bp_W9_m3_demands235", size9, _cs_sparse_chunk, (9, 0, ("solve_bp",), (2, 3, 5)), chunk=max(1, size9 // 512), describe="solve_bp: three sizes in 1..9, demands from {2,3,5}^3"))
+    else:
+        b = seed % 32
+        lo, hi = size9 * b // 32, size9 * (b + 1) // 32
+        js.append(Job(f"bp_W9_m3_demands235_block{b}of32", hi - lo, _cs_sparse_chunk, (9, lo, ("solve_bp",), (2, 3, 5)), chunk=max(1, (hi - lo) // 128), describe="rotating 1/32 block (VERIF_SEED) of solve_bp: three sizes in 1..9, demands from {2,3,5}^3"))
     # limit parameters: max_iter 0/1/2, early stop through on_progress, max_nodes: a plan returned before column
     # generation converged (or before the tree is exhausted) must not be labelled OPTIMAL unless it is minimal
     for W in (3, 4, 5, 6):
